@@ -574,7 +574,7 @@ fn eval_c14(case: &Case, acc: &Acc) -> Vec<Violation> {
                 "token_geometry"
             };
             out.push(vio(class, format!("{} | text {:?}: {m}", case.cfg.short(), text), case, Some(text), json!({"why": m})));
-            if out.len() > 3 {
+            if prune_by_class(&mut out, 3) > 60 {
                 break;
             }
             continue;
@@ -600,7 +600,7 @@ fn eval_c14(case: &Case, acc: &Acc) -> Vec<Violation> {
             }
             _ => {}
         }
-        if out.len() > 3 {
+        if prune_by_class(&mut out, 3) > 60 {
             break;
         }
     }
@@ -814,7 +814,7 @@ fn eval_c16(case: &Case, acc: &Acc) -> Vec<Violation> {
                 }
             }
         }
-        if out.len() > 4 {
+        if prune_by_class(&mut out, 3) > 60 {
             break;
         }
     }
@@ -903,7 +903,22 @@ fn classify_c15(cfg: &ScanCfg, reference: &[Norm], real: &[Norm], text: &str) ->
     for r in reference.iter().filter(|n| is_c(n)) {
         match real.iter().find(|q| q.start == r.start && q.kind == r.kind) {
             None => events.push((r.start, if r.kind == RKind::BlockComment { format!("block_comment_missed({})", end_of(r.start)) } else { "line_comment_missed".into() })),
-            Some(q) if q.end > r.end => events.push((r.start, if r.kind == RKind::BlockComment { format!("block_comment_overruns_first_end({})", end_of(r.start)) } else { "line_comment_overruns_line_end".into() })),
+            Some(q) if q.end > r.end => events.push((
+                r.start,
+                if r.kind == RKind::BlockComment {
+                    // is the first end occurrence directly preceded by a non-empty proper prefix of the end
+                    // delimiter (inside the comment body)? Then the known "partial end match is consumed"
+                    // shape applies; an overrun past a *clean* first end is something else.
+                    let (sd, ed) = cfg.modes[0].block_comments.iter().find(|(s, _)| text[r.start..].starts_with(s.as_str())).cloned().unwrap_or_default();
+                    let body_start = r.start + sd.len();
+                    let end_pos = r.end.saturating_sub(ed.len());
+                    let body = if end_pos >= body_start { &text[body_start..end_pos] } else { "" };
+                    let entangled = (1..ed.len()).any(|l| ed.is_char_boundary(l) && body.ends_with(&ed[..l]));
+                    if entangled { format!("block_comment_overruns_first_end_after_partial_end({})", end_of(r.start)) } else { format!("block_comment_overruns_first_end({})", end_of(r.start)) }
+                } else {
+                    "line_comment_overruns_line_end".into()
+                },
+            )),
             Some(q) if q.end < r.end => events.push((r.start, if r.kind == RKind::BlockComment { format!("block_comment_ends_early({})", end_of(r.start)) } else { "line_comment_ends_early".into() })),
             _ => {}
         }
@@ -960,7 +975,7 @@ fn eval_c15(case: &Case, acc: &Acc) -> Vec<Violation> {
                 Some(text),
                 json!({"real": fmt_norm(&real, text), "reference": fmt_norm(&reference, text)}),
             ));
-            if out.len() > 4 {
+            if prune_by_class(&mut out, 3) > 60 {
                 break;
             }
         }
